@@ -24,7 +24,8 @@ EXTRA = [
     ('BVExtractConstants', '(set-logic ALL)\n(declare-const v (_ BitVec 4))\n(assert (= ((_ extract 3 0) #xAB) v))\n(assert (= ((_ extract 7 4) #xAB) v))\n(assert (= ((_ extract 5 2) (_ bv171 8)) v))\n(check-sat)\n'),
     ('BVEvalExtend', '(set-logic ALL)\n(declare-const v (_ BitVec 3))\n(assert (= ((_ sign_extend 2) #b0) v))\n(assert (= ((_ sign_extend 2) #b1) v))\n(assert (= ((_ sign_extend 2) (_ bv0 1)) v))\n(assert (= ((_ zero_extend 2) #b1) v))\n(check-sat)\n'),
 ]
-# name capture: the body binds a symbol that is free in the actual argument (known finding F19 if it reproduces)
+# name capture: the body binds a symbol that is free in the actual argument (F19, repaired: the call is left alone)
+# and a formal parameter bound again in the body (REBOUND)
 # a quantified variable elsewhere in the input has the name of a declared constant but another width: the width is looked up by
 # bare name (known finding F52)
 SHADOW = ('BVExtractZeroExtend', '(set-logic ALL)\n(declare-const x (_ BitVec 8))\n(assert (= ((_ extract 5 2) ((_ zero_extend 4) x)) #b0000))\n'
@@ -34,6 +35,7 @@ SCOPE1 = ('InlineDefinedFuns', '(set-logic ALL)\n(declare-const y Int)\n(define-
 SCOPE2 = ('InlineDefinedFuns', '(set-logic ALL)\n(define-fun c () Int 3)\n(assert (let ((c 5)) (= c 5)))\n(check-sat)\n')
 # |x| and x are one symbol: the formal parameter |x| is not substituted for x in the body
 QUOTED = ('InlineDefinedFuns', '(set-logic ALL)\n(declare-const x Int)\n(define-fun f ((|x| Int)) Int (+ x 1))\n(assert (= x 0))\n(assert (= (f 5) 6))\n(check-sat)\n')
+REBOUND = ('InlineDefinedFuns', '(set-logic ALL)\n(define-fun f ((x Int)) Bool (forall ((x Int)) (>= (* x x) 0)))\n(assert (f (- 5)))\n(check-sat)\n')
 CAPTURE = ('InlineDefinedFuns', '(set-logic ALL)\n(declare-const y Int)\n(define-fun g ((p Int)) Bool (exists ((y Int)) (> y p)))\n(assert (g y))\n(check-sat)\n')
 
 
@@ -138,7 +140,7 @@ def run(ctx):
     model = common.Model()
     rng = ctx.rng
     per = 40 if ctx.thorough else 7
-    texts = list(EXTRA) + [CAPTURE, SHADOW, SCOPE1, SCOPE2, QUOTED]
+    texts = list(EXTRA) + [CAPTURE, REBOUND, SHADOW, SCOPE1, SCOPE2, QUOTED]
     for cls in IDENTITY:
         for _ in range(per):
             r = instances.make(rng, cls)
@@ -194,7 +196,7 @@ def run(ctx):
             scope = scope_of(exprs, node, impl)
             if any(so is None for _, so in scope):
                 continue
-            capture = {CAPTURE: 'F19-inlining-captures-bound-symbol', SHADOW: 'F52-width-lookup-ignores-scopes',
+            capture = {SHADOW: 'F52-width-lookup-ignores-scopes',
                        SCOPE1: 'F55-inlining-ignores-binders-at-the-use-site', SCOPE2: 'F55-inlining-ignores-binders-at-the-use-site',
                        QUOTED: 'F56-quoted-and-simple-spelling-are-different-names'}.get((cls, text))
             queries.append((decls, scope, a, b))
